@@ -64,6 +64,15 @@ def gen(seed, tier):
             out.append(f"array_split {a} z1 {z(ax)}")
             out.append(f"split {a} z1 {z(ax)}")
             out.append(f"split_axis {a} {z(ax)}")
+        # joins of arrays of different rank: an axis inside the larger rank only is still out of range
+        for sh2 in ([2], [3], [2, 3], [3, 2], [2, 2, 2], [1], [2, 1]):
+            if len(sh2) == n:
+                continue
+            for ax in list(range(max(n, len(sh2)) + 2)) + [2 ** 31]:
+                out.append(f"concatenate L2 {a} {arr(sh2, base=50)} {z(ax)}")
+                out.append(f"concatenate L2 {arr(sh2, base=50)} {a} {z(ax)}")
+                out.append(f"append {a} {arr(sh2, base=50)} {z(ax)}")
+                out.append(f"stack L2 {a} {arr(sh2, base=50)} {z(ax)}")
         tot = prod(sh)
         for i in list(range(0, tot + 3)) + [2 ** 31, 2 ** 62]:
             out.append(f"index_to_coord {lst(sh)} {z(i)}")
